@@ -68,6 +68,25 @@ def run(ctx):
         op = rng.choice(bin_ops + gen_bin + gen_bin)
         lines.append("fr %s %s %s" % (op, tok(a), tok(b)))
         cls.append(op)
+    # comparison / lexicographic test are on CANONICAL values: operands whose canonical limbs are
+    # structured (agreeing on the high words and differing in exactly one lower word, etc.)
+    Rm0 = (1 << 256) % Q
+    small = [0, 1, 2, (1 << 63), W - 1]
+    for _ in range(ctx.n(4000, 100000)):
+        hi = [rng.choice(small) for _ in range(4)]
+        x = sum(hi[i] << (64 * i) for i in range(4)) % Q
+        y = x
+        j = rng.randrange(4)
+        yl = list(hi)
+        yl[j] = rng.choice(small + [rng.randrange(W)])
+        y = sum(yl[i] << (64 * i) for i in range(4)) % Q
+        if rng.random() < 0.15:
+            x, y = rng.choice(bv), rng.choice(bv)
+        lines.append("fr cmp %s %s" % (tok(x * Rm0 % Q), tok(y * Rm0 % Q)))
+        cls.append("cmp-canonical")
+        if rng.random() < 0.2:
+            lines.append("fr lex %s" % tok(((Q - 1) // 2 + rng.randrange(-3, 4) + (rng.choice([0, 1 << 64, 1 << 128]))) % Q * Rm0 % Q))
+            cls.append("lex-canonical")
     # every boundary value through every unary op (quick: a sample)
     us = bv if not ctx.quick() else rng.sample(bv, 250) + bv[:20]
     for a in us + [rng.randrange(Q) for _ in range(ctx.n(300, 20000))]:
